@@ -12,7 +12,8 @@
 (* WRITER.  A sink performs a sequence of Write calls (text: one per row;  *)
 (* encoders: one per root; dry-run: one flush per root or one at the end). *)
 (* The writer refuses call number `at` ("fail": accepts nothing, "short":  *)
-(* accepts a proper prefix; both return an error).  Sinks react as the     *)
+(* accepts a proper prefix, "full": accepts every byte; all return an      *)
+(* error; "-once": later calls succeed again).  Sinks react as the         *)
 (* code does: return the error at once, or (named deviations) ignore it.   *)
 (***************************************************************************)
 EXTENDS MdDoc, Forest, TLC
